@@ -148,6 +148,9 @@ def match(pid, fail):
     if pid == "C13" and fail.get("exception") == "ValueError" and "Duplicate Enum value in" in what \
             and (fail.get("case") or {}).get("fe") == "isar":
         return "isar-duplicate-enum-value-valueerror"
+    if pid == "C13" and fail.get("exception") == "ValueError" and "integer string conversion" in what \
+            and (fail.get("case") or {}).get("fault") == "huge_literal":
+        return "python-int-text-limit-valueerror"
     feats = set(fail.get("features") or ())
     for f in sorted(EXPLAINS.get((pid, fail.get("check")), set()) & feats):
         return f
